@@ -176,7 +176,7 @@ func init() { historySetups["C13"] = c13Setup }
 
 func TestC13(t *testing.T) {
 	st := kvh.StatsFor("C13")
-	st.SetRule(c13Rule,
+	st.SetRule(c13Rule+" || "+c13wRule,
 		"the shadow is driven by hook lines placed immediately before the real write/fsync/msync/truncate calls; for standard I/O a sample of generated workloads is re-executed under strace and the system calls per file must match the hook events one to one (hook-fidelity pass); for MMap hook fidelity stays an assumption",
 		"Threshold counts record bytes (chunk headers included, block-tail padding and batch bytes excluded), as the statement words it",
 		"padding is derived from the file offset by the format rule (a tail of <= 7 bytes is padded)")
@@ -189,6 +189,7 @@ func TestC13(t *testing.T) {
 		}
 		c13Fidelity(t, st, n)
 	})
+	t.Run("windows", func(t *testing.T) { c13Windows(t, st) })
 	checkCases(t, st, func(t *rapid.T) {
 		runHistoryCase(t, "C13", c13Profile, func(r *kvh.Runner) bool {
 			return r.F.C13Rot > 0 || r.F.C13Thr > 0 || r.F.C13SyncBatch > 0
